@@ -205,15 +205,16 @@ type mSide struct {
 	T       *vsql.Table
 	Ops     []string        // executed statements ({T} placeholder kept)
 	Touched map[string]bool // keys this side inserted / updated / deleted
+	Phys    []string                   // column names in the table's physical (DDL) order
 	UpdCols map[string]map[string]bool // key -> names of the columns this side assigned by UPDATE (only while the key was never inserted/deleted here)
 }
 
 func mNewSide(sp mSpec) *mSide {
-	return &mSide{Cols: append([]mCol(nil), sp.Cols...), NPK: sp.NPK, T: vsql.NewTable(mNames(sp.Cols), sp.NPK), Touched: map[string]bool{}, UpdCols: map[string]map[string]bool{}}
+	return &mSide{Cols: append([]mCol(nil), sp.Cols...), NPK: sp.NPK, T: vsql.NewTable(mNames(sp.Cols), sp.NPK), Touched: map[string]bool{}, UpdCols: map[string]map[string]bool{}, Phys: mNames(sp.Cols)}
 }
 
 func (s *mSide) clone() *mSide {
-	c := &mSide{Cols: append([]mCol(nil), s.Cols...), NPK: s.NPK, T: s.T.Clone(), Touched: map[string]bool{}, UpdCols: map[string]map[string]bool{}}
+	c := &mSide{Cols: append([]mCol(nil), s.Cols...), NPK: s.NPK, T: s.T.Clone(), Touched: map[string]bool{}, UpdCols: map[string]map[string]bool{}, Phys: append([]string(nil), s.Phys...)}
 	return c
 }
 
@@ -323,10 +324,10 @@ func (s *mSide) genOp(rt *rapid.T, label string, o mOpOpts) string {
 	c := rapid.IntRange(0, total-1).Draw(rt, label+".kind")
 	var stmt string
 	if o.other != nil {
-		switch d := rapid.IntRange(0, 9).Draw(rt, label+".directed"); {
-		case d < 2:
+		switch {
+		case mOneIn(rt, label+".disjoint", 2):
 			stmt = s.genDisjointUpdate(rt, label, o)
-		case d < 3:
+		case mOneIn(rt, label+".quietdel", 3):
 			stmt = s.genQuietDelete(rt, label, o)
 		}
 		if stmt != "" {
@@ -740,8 +741,18 @@ func (c *mCase) checkoutNew(rt *rapid.T, name, from string) {
 	if from != "" {
 		start = c.pfx + from
 	}
-	c.se.MustExec(rt, fmt.Sprintf("CALL dolt_checkout('-b','%s','%s')", c.pfx+name, start))
+	c.run(rt, fmt.Sprintf("CALL dolt_checkout('-b','%s','%s')", c.pfx+name, start))
 	c.branches = append(c.branches, c.pfx+name)
+}
+
+// run executes q and logs it (rapid prints the log of the final, shrunk failing case only).
+func (c *mCase) run(rt *rapid.T, q string) {
+	if len(q) > 300 {
+		rt.Logf("SQL: %s …(%d bytes)", q[:300], len(q))
+	} else {
+		rt.Logf("SQL: %s", q)
+	}
+	c.se.MustExec(rt, q)
 }
 
 func (c *mCase) close() {
@@ -752,4 +763,314 @@ func (c *mCase) close() {
 		_ = c.se.Exec(fmt.Sprintf("CALL dolt_branch('-D','%s')", b))
 	}
 	c.se.Close()
+}
+
+// mOneIn is true with probability 2^-bits (rapid's integer generators favour small values, so
+// calibrated rare events are built from fair booleans).
+func mOneIn(rt *rapid.T, label string, bits int) bool {
+	for i := 0; i < bits; i++ {
+		if !rapid.Bool().Draw(rt, fmt.Sprintf("%s.%d", label, i)) {
+			return false
+		}
+	}
+	return true
+}
+
+// ---------------------------------------------------------------------------------------
+// one-sided schema changes
+
+type mSchemaChange struct {
+	Kind   string // add | drop | reorder | widen
+	At     int    // applied before the At-th statement of the side's history (or at its end)
+	Col    mCol   // add: the new column; widen: the new definition of Target
+	Target string // drop / reorder / widen
+	Pos    string // "", " FIRST", " AFTER x"
+	DDL    string
+	done   bool
+}
+
+func (sc *mSchemaChange) String() string { return fmt.Sprintf("%s@%d", sc.DDL, sc.At) }
+
+// mGenSchemaChange draws one compatible schema change for a table of spec sp. The indexed column
+// is never dropped (that would also drop the index, a second schema change).
+func mGenSchemaChange(rt *rapid.T, sp mSpec) *mSchemaChange {
+	sc := &mSchemaChange{At: rapid.IntRange(0, 8).Draw(rt, "sc.at")}
+	vals := sp.Cols[sp.NPK:]
+	pos := func(exclude string) string {
+		var names []string
+		for _, c := range sp.Cols {
+			if c.Name != exclude {
+				names = append(names, c.Name)
+			}
+		}
+		i := rapid.IntRange(0, len(names)+1).Draw(rt, "sc.pos")
+		switch {
+		case i == len(names)+1:
+			return " FIRST"
+		case i == len(names):
+			return ""
+		default:
+			return " AFTER " + names[i]
+		}
+	}
+	kind := rapid.SampledFrom([]string{"add", "add", "drop", "reorder", "widen"}).Draw(rt, "sc.kind")
+	if kind == "widen" {
+		var cands []mCol
+		for _, c := range vals {
+			if c.Kind == mInt || (c.Kind == mStr && !c.Wide) {
+				cands = append(cands, c)
+			}
+		}
+		if len(cands) == 0 {
+			kind = "add"
+		} else {
+			c := cands[rapid.IntRange(0, len(cands)-1).Draw(rt, "sc.target")]
+			sc.Kind, sc.Target = "widen", c.Name
+			if c.Kind == mInt {
+				c.Kind = mBig
+			} else {
+				c.Wide = true
+			}
+			sc.Col = c
+			sc.DDL = "ALTER TABLE {T} MODIFY COLUMN " + c.ddl()
+			return sc
+		}
+	}
+	if kind == "drop" {
+		var cands []mCol
+		for _, c := range vals {
+			if c.Name != sp.Index {
+				cands = append(cands, c)
+			}
+		}
+		if len(vals) < 2 || len(cands) == 0 {
+			kind = "add"
+		} else {
+			c := cands[rapid.IntRange(0, len(cands)-1).Draw(rt, "sc.target")]
+			sc.Kind, sc.Target = "drop", c.Name
+			sc.DDL = "ALTER TABLE {T} DROP COLUMN " + c.Name
+			return sc
+		}
+	}
+	if kind == "reorder" {
+		c := vals[rapid.IntRange(0, len(vals)-1).Draw(rt, "sc.target")]
+		sc.Kind, sc.Target = "reorder", c.Name
+		sc.Pos = pos(c.Name)
+		if sc.Pos == "" {
+			sc.Pos = " FIRST"
+		}
+		sc.DDL = "ALTER TABLE {T} MODIFY COLUMN " + c.ddl() + sc.Pos
+		return sc
+	}
+	c := mCol{Name: "n1", Kind: mKind(rapid.IntRange(0, 4).Draw(rt, "sc.newkind"))}
+	if rapid.Bool().Draw(rt, "sc.hasdef") {
+		c.HasDef = true
+		c.NotNull = rapid.Bool().Draw(rt, "sc.notnull")
+		save := c.NotNull
+		c.NotNull = true // the default itself is never NULL
+		c.Def = c.genVal(rt, "sc.def")
+		c.NotNull = save
+	}
+	sc.Kind, sc.Col, sc.Pos = "add", c, pos("")
+	sc.DDL = "ALTER TABLE {T} ADD COLUMN " + c.ddl() + sc.Pos
+	return sc
+}
+
+// mPlace inserts name into the physical order at pos ("" last, " FIRST", " AFTER x").
+func mPlace(phys []string, name, pos string) []string {
+	var out []string
+	for _, n := range phys {
+		if n != name {
+			out = append(out, n)
+		}
+	}
+	switch {
+	case pos == "":
+		return append(out, name)
+	case pos == " FIRST":
+		return append([]string{name}, out...)
+	}
+	after := strings.TrimPrefix(pos, " AFTER ")
+	var res []string
+	for _, n := range out {
+		res = append(res, n)
+		if n == after {
+			res = append(res, name)
+		}
+	}
+	return res
+}
+
+// valueOrdinals maps each non-pk column name to its ordinal among the non-pk columns in
+// physical order (the layout of the stored value tuple).
+func (s *mSide) valueOrdinals() map[string]int {
+	pk := map[string]bool{}
+	for _, c := range s.Cols[:s.NPK] {
+		pk[c.Name] = true
+	}
+	out := map[string]int{}
+	for _, n := range s.Phys {
+		if !pk[n] {
+			out[n] = len(out)
+		}
+	}
+	return out
+}
+
+// apply performs the change on the side's model.
+func (sc *mSchemaChange) apply(s *mSide) {
+	sc.done = true
+	switch sc.Kind {
+	case "add":
+		s.Phys = mPlace(s.Phys, sc.Col.Name, sc.Pos)
+		s.Cols = append(s.Cols, sc.Col)
+		s.T.Cols = append(s.T.Cols, sc.Col.Name)
+		for _, k := range s.T.Keys() {
+			s.T.Rows[k] = append(s.T.Rows[k], sc.Col.implicit())
+		}
+	case "reorder":
+		s.Phys = mPlace(s.Phys, sc.Target, sc.Pos)
+	case "drop":
+		i := s.colIdx(sc.Target)
+		var ph []string
+		for _, n := range s.Phys {
+			if n != sc.Target {
+				ph = append(ph, n)
+			}
+		}
+		s.Phys = ph
+		s.Cols = append(append([]mCol{}, s.Cols[:i]...), s.Cols[i+1:]...)
+		s.T.Cols = mNames(s.Cols)
+		for _, k := range s.T.Keys() {
+			r := s.T.Rows[k]
+			s.T.Rows[k] = append(append(vsql.Row{}, r[:i]...), r[i+1:]...)
+		}
+		for _, m := range s.UpdCols {
+			delete(m, sc.Target)
+		}
+	case "widen":
+		s.Cols[s.colIdx(sc.Target)] = sc.Col
+	}
+	s.Ops = append(s.Ops, sc.DDL)
+}
+
+// hook adapts the change to mRunHistory's callback.
+func (sc *mSchemaChange) hook(s *mSide) func(step int) []string {
+	return func(step int) []string {
+		if sc.done || (step >= 0 && step != sc.At) {
+			return nil
+		}
+		sc.apply(s)
+		return []string{sc.DDL}
+	}
+}
+
+// mModelMerge is the expected result of merging theirs into ours when at most one side (the
+// changer) made schema change sc: the three tables are expressed in the merged column set (the
+// changer's columns, matched by name; a column only the changer has is read as the changer's
+// own value where the changer has the row and as the column default elsewhere, so it never
+// conflicts and rows the other side inserted get the default) and merged with vsql.Merge3.
+// Two documented refinements (go/libraries/doltcore/merge/schema_merge_test.go):
+//   - DROP COLUMN: a base row whose dropped cell the other side changed is a conflict;
+//   - ADD COLUMN, ours = the side without the column: a conflicted row keeps ours, migrated to
+//     the merged schema with the default.
+//
+// The returned conflict list carries rows in the merged column set; conflict-table expectations
+// are built by mConflictDisplay from the raw tables.
+func mModelMerge(base, ours, theirs *mSide, sc *mSchemaChange, oursChanged bool) (*vsql.Table, []vsql.Conflict) {
+	if sc == nil {
+		return vsql.Merge3(base.T, ours.T, theirs.T)
+	}
+	a, o := ours, theirs
+	if !oursChanged {
+		a, o = theirs, ours
+	}
+	cols := mNames(a.Cols)
+	conv := func(src *mSide) *vsql.Table {
+		out := vsql.NewTable(cols, a.NPK)
+		for _, k := range src.T.Keys() {
+			r := src.T.Rows[k]
+			nr := make(vsql.Row, len(cols))
+			for i, name := range cols {
+				if j := src.colIdx(name); j >= 0 {
+					nr[i] = r[j]
+				} else if ar, ok := a.T.Rows[k]; ok {
+					nr[i] = ar[i]
+				} else {
+					nr[i] = a.Cols[i].implicit()
+				}
+			}
+			out.Rows[k] = nr
+		}
+		return out
+	}
+	b2, o2 := conv(base), conv(o)
+	var exp *vsql.Table
+	var confs []vsql.Conflict
+	ours2 := a.T
+	if oursChanged {
+		exp, confs = vsql.Merge3(b2, a.T, o2)
+	} else {
+		exp, confs = vsql.Merge3(b2, o2, a.T)
+		ours2 = o2
+	}
+	isConf := map[string]bool{}
+	for _, c := range confs {
+		isConf[c.Key] = true
+	}
+	if sc.Kind == "add" && !oursChanged {
+		idx := a.colIdx(sc.Col.Name)
+		for i := range confs {
+			if confs[i].Ours != nil {
+				confs[i].Ours[idx] = sc.Col.implicit()
+				exp.Rows[confs[i].Key][idx] = sc.Col.implicit()
+			}
+		}
+	}
+	if sc.Kind == "drop" {
+		bi, oi := base.colIdx(sc.Target), o.colIdx(sc.Target)
+		for _, k := range base.T.Keys() {
+			or, ok := o.T.Rows[k]
+			if !ok || or[oi] == base.T.Rows[k][bi] || isConf[k] {
+				continue
+			}
+			c := vsql.Conflict{Key: k, Base: b2.Rows[k].Clone()}
+			if r, ok := ours2.Rows[k]; ok {
+				c.Ours = r.Clone()
+				exp.Rows[k] = r.Clone()
+			} else {
+				delete(exp.Rows, k)
+			}
+			if oursChanged {
+				c.Theirs = o2.Rows[k].Clone()
+			} else if r, ok := a.T.Rows[k]; ok {
+				c.Theirs = r.Clone()
+			}
+			confs = append(confs, c)
+		}
+		sort.Slice(confs, func(i, j int) bool { return confs[i].Key < confs[j].Key })
+	}
+	return exp, confs
+}
+
+// mConflictDisplay builds the expected dolt_conflicts_t rows: base_* from the base table (base
+// columns), our_* from the merged table itself (merged columns), their_* from their head (their
+// columns).
+func mConflictDisplay(confs []vsql.Conflict, base, theirs *mSide, exp *vsql.Table) []string {
+	out := make([]string, 0, len(confs))
+	for _, c := range confs {
+		d := vsql.Conflict{Key: c.Key}
+		if r, ok := base.T.Rows[c.Key]; ok {
+			d.Base = r
+		}
+		if r, ok := exp.Rows[c.Key]; ok {
+			d.Ours = r
+		}
+		if r, ok := theirs.T.Rows[c.Key]; ok {
+			d.Theirs = r
+		}
+		out = append(out, mConflictRow(d, len(base.Cols), len(exp.Cols), len(theirs.Cols)))
+	}
+	sort.Strings(out)
+	return out
 }
